@@ -76,7 +76,7 @@ def run_shard(args):
     prop_factory, tier, seed, shard, nshards, seconds = args
     prop = prop_factory()
     res = {"evaluations": 0, "keys": set(), "tags": {}, "bad": [], "samples": [], "exhaustive_done": False,
-           "corpus": 0, "error": None, "exh_cases": 0}
+           "corpus": 0, "error": None, "exh_cases": 0, "known": {}}
     try:
         prop.setup()
         rng = random.Random((seed * 1000003 + shard * 7919 + 17) & 0xFFFFFFFF)
@@ -95,9 +95,13 @@ def run_shard(args):
                 if len(res["samples"]) < 3 and v.key is not None:
                     res["samples"].append({"case": _strip(c), "impl": io})
                 if not (v.agree and v.holds):
-                    if len(res["bad"]) < 40:
-                        res["bad"].append({"case": c, "impl": io, "model": mo, "agree": v.agree,
-                                           "holds": v.holds, "why": v.why})
+                    b = {"case": c, "impl": io, "model": mo, "agree": v.agree, "holds": v.holds, "why": v.why}
+                    k = match_known(prop.pid, b, prop) if not v.holds else None
+                    if k is not None:
+                        # an open known finding: counted, one sample kept, never a reason to stop exploring
+                        res["known"][k["id"]] = res["known"].get(k["id"], 0) + 1
+                    elif len(res["bad"]) < 40:
+                        res["bad"].append(b)
 
         if shard == 0:
             cs = prop.corpus()
@@ -233,6 +237,9 @@ def run_check(prop_factory, tier):
     prop.setup()
     violations = 0
     known_hit = {}
+    for r in results:
+        for kid, c in r["known"].items():
+            known_hit[kid] = known_hit.get(kid, 0) + c
     exit_code = 0
     n_replay = 0
     failing = [b for b in bads if not b["holds"]]
